@@ -86,6 +86,25 @@ type SolveResult struct {
 	Raw    string
 }
 
+// send writes text without expecting a response.
+func (s *SolverProc) send(text string) {
+	if s.dead {
+		return
+	}
+	if _, err := io.WriteString(s.in, text); err != nil {
+		s.kill()
+	}
+}
+
+// checkIn sends prelude (kept), then push; extra; check-sat; get-value; pop.
+func (s *SolverProc) checkIn(prelude, extra string, valueExprs []string) SolveResult {
+	s.send(prelude)
+	if s.dead {
+		return SolveResult{Status: "error", Raw: "solver dead"}
+	}
+	return s.run(extra, valueExprs)
+}
+
 // run sends script + check-sat (+ get-value on valueExprs) inside push/pop.
 func (s *SolverProc) run(script string, valueExprs []string) SolveResult {
 	s.seq++
@@ -365,4 +384,126 @@ func (p *Portfolio) Solve(script string, valueExprs []string) SolveResult {
 	}
 	p.stats.TimeNs += int64(time.Since(t0))
 	return r
+}
+
+
+// Session: incremental use of the primary back end along one path. The path
+// condition is asserted once (level 1); each query adds its extra conjuncts in
+// an inner push/pop. Other back ends are used stand-alone as fallbacks.
+type Session struct {
+	p       *Portfolio
+	proc    *SolverProc
+	em      *Emitter
+	nAssert int
+}
+
+func (p *Portfolio) openSession() *Session { return &Session{p: p} }
+
+func (ss *Session) close() {
+	if ss.proc != nil && !ss.proc.dead {
+		ss.proc.send("(pop 1)\n")
+	}
+	ss.proc = nil
+}
+
+// solve checks pc ∧ extras. leaves receives the leaf terms for model extraction.
+func (ss *Session) solve(ctx *TermCtx, pc []*Term, extras []*Term, wantModel bool) (SolveResult, []*Term, func(*Term) string) {
+	p := ss.p
+	t0 := time.Now()
+	p.stats.Queries++
+	p.nq++
+	primary := p.order[0]
+	proc := p.get(primary)
+	var r SolveResult
+	r.Status = "unknown"
+	var leaves []*Term
+	var ref func(*Term) string
+	if proc != nil {
+		if ss.proc != proc {
+			ss.proc = proc
+			ss.em = NewEmitter()
+			ss.nAssert = 0
+			proc.send("(push 1)\n")
+		}
+		var sb strings.Builder
+		for ; ss.nAssert < len(pc); ss.nAssert++ {
+			t := pc[ss.nAssert]
+			ss.em.Emit(&sb, t)
+			fmt.Fprintf(&sb, "(assert %s)\n", ss.em.Ref(t))
+		}
+		var xb strings.Builder
+		for _, x := range extras {
+			ss.em.Emit(&sb, x)
+			fmt.Fprintf(&xb, "(assert %s)\n", ss.em.Ref(x))
+		}
+		leaves = ss.em.Leaves
+		ref = ss.em.Ref
+		var exprs []string
+		if wantModel {
+			for _, l := range leaves {
+				if l.op == OpVar {
+					exprs = append(exprs, l.name)
+				} else {
+					exprs = append(exprs, ref(l), ref(l.a[0]))
+				}
+			}
+		}
+		r = proc.checkIn(sb.String(), xb.String(), exprs)
+		if proc.dead {
+			ss.proc = nil
+		}
+		if r.Status == "sat" || r.Status == "unsat" {
+			p.stats.ByBackend[primary]++
+		}
+	}
+	if r.Status != "sat" && r.Status != "unsat" {
+		// stand-alone fallback on the other back ends
+		roots := append(append([]*Term(nil), pc...), extras...)
+		script, lv, rf := ctx.Script(roots)
+		var exprs []string
+		for _, l := range lv {
+			if l.op == OpVar {
+				exprs = append(exprs, l.name)
+			} else {
+				exprs = append(exprs, rf(l), rf(l.a[0]))
+			}
+		}
+		for _, k := range p.order[1:] {
+			s := p.get(k)
+			if s == nil {
+				continue
+			}
+			r = s.run(script, exprs)
+			if r.Status == "sat" || r.Status == "unsat" {
+				p.stats.ByBackend[k]++
+				leaves, ref = lv, rf
+				break
+			}
+		}
+	} else if p.cross > 0 && p.nq%p.cross == 0 && len(p.order) > 1 {
+		roots := append(append([]*Term(nil), pc...), extras...)
+		script, _, _ := ctx.Script(roots)
+		if s2 := p.get(p.order[1]); s2 != nil {
+			r2 := s2.run(script, nil)
+			if r2.Status == "sat" || r2.Status == "unsat" {
+				p.stats.CrossChk++
+				if r2.Status != r.Status {
+					p.stats.CrossDis++
+				}
+			}
+		}
+	}
+	switch r.Status {
+	case "sat":
+		p.stats.Sat++
+	case "unsat":
+		p.stats.Unsat++
+	case "unknown":
+		p.stats.Unknown++
+	default:
+		p.stats.Errors++
+		r.Status = "unknown"
+	}
+	p.stats.TimeNs += int64(time.Since(t0))
+	return r, leaves, ref
 }
